@@ -26,7 +26,7 @@ pub fn dump_tokens(text: &str, fragment: bool) -> String {
                 break;
             }
             Some(Ok(t)) => out.push(match t {
-                Token::Declaration { version, .. } => format!("D:{}", sp(version)),
+                Token::Declaration { version, encoding, .. } => format!("D:{}:{}", sp(version), encoding.map(|e| sp(e)).unwrap_or("~".into())),
                 Token::ProcessingInstruction { target, content, .. } => format!("P:{}:{}", sp(target), match content { Some(c) => sp(c), None => "~".into() }),
                 Token::Comment { text, .. } => format!("C:{}", sp(text)),
                 Token::DtdStart { span, .. } | Token::EmptyDtd { span, .. } | Token::EntityDeclaration { span, .. } | Token::DtdEnd { span } => format!("X:{}", rg(span)),
